@@ -1,6 +1,10 @@
 package c17
 
-import "verifharness/pt"
+import (
+	"regexp"
+
+	"verifharness/pt"
+)
 
 // knownParsePredicates: input classes of sub-check (a) listed as open findings in
 // /verif/known_findings.jsonl. Each predicate is stated over the input only.
@@ -18,7 +22,13 @@ type knownExec struct {
 	match func(q execQuery) bool
 }
 
-var knownExecPredicates = []knownExec{}
+var zeroSpanTimechart = regexp.MustCompile(`(?i)timechart[^|]*\bspan\s*=\s*0+[a-z]+`)
+
+var knownExecPredicates = []knownExec{
+	// C17-timechart-zero-span: an SPL timechart whose span option is zero with a time unit
+	// (span=0s: bucket width 0 ms) divides by zero on a block-search worker goroutine: the process exits.
+	{id: "C17-timechart-zero-span", match: func(q execQuery) bool { return q.Lang == "spl" && zeroSpanTimechart.MatchString(q.Text) }},
+}
 
 func knownExecFinding(q execQuery) string {
 	for _, k := range knownExecPredicates {
